@@ -88,45 +88,45 @@ def run(ck):
                     g = call(it, m, "effective_energy_gradient", v, reduce=VConst(reduce))
                     return m, g, role_terms(it, m)
 
-                p = single(paths_of(prog, th), inst)
-                shape_err_verdict(ck, "C03.R2", inst, [p])
-                it = p.interp
-                m, g, R = p.value
-                want = layout_dim(it, m)
-                lead = () if reduce else ("B",)
-                ck.check(g.shape == lead + (want,), "C03.R2", inst + ":segments in parameter registration order", esite,
-                         "gradient vector layout is %s; the parameters are registered as %s (hidden-major weights first)" % (show(g.shape), show(lead + (want,))), layout=show(g.shape))
-                segs = getattr(g.obj, "segments", None)
-                names = [n for n, _ in module_params(it, m)]
-                if segs is None or len(segs) != len(names):
-                    ck.undecided("C03.R6", inst, esite, "gradient is not a concatenation of one segment per parameter")
-                    continue
-                v = T.sym("v")
-                ph = T.sigmoid(aff(v, R["W"], R["c"]))
-                exp = {}
-                if reduce:
-                    exp["W"] = -T.app("matmul", T.app("t", ph), v)
-                    exp["b"] = -T.app("sum", v, (-2,))
-                    exp["c"] = -T.app("sum", ph, (-2,))
-                else:
-                    exp["W"] = -T.app("einsum2", "...j,...k->...jk", ph, v)
-                    exp["b"] = -v
-                    exp["c"] = -ph
-                if "U" in R:
-                    pa = T.sigmoid(aff(v, R["U"], R["d"]))
-                    exp["U"] = -T.app("matmul", T.app("t", pa), v) if reduce else -T.app("einsum2", "...j,...k->...jk", pa, v)
-                    exp["d"] = -T.app("sum", pa, (-2,)) if reduce else -pa
-                role_of = {n: r for r, (n, _) in params_by_shape(it, m).items()}
-                for (st, sd), n in zip(segs, names):
-                    r = role_of[n]
-                    got = _strip_flat(st)
-                    w = exp[r]
-                    if got == w:
-                        ck.ok("C03.R6", "%s:d/d%s" % (inst, n), esite, segment=got)
+                for p in returning(paths_of(prog, th), inst):
+                    shape_err_verdict(ck, "C03.R2", inst, [p])
+                    it = p.interp
+                    m, g, R = p.value
+                    want = layout_dim(it, m)
+                    lead = () if reduce else ("B",)
+                    ck.check(g.shape == lead + (want,), "C03.R2", inst + ":segments in parameter registration order", esite,
+                             "gradient vector layout is %s; the parameters are registered as %s (hidden-major weights first)" % (show(g.shape), show(lead + (want,))), layout=show(g.shape))
+                    segs = getattr(g.obj, "segments", None)
+                    names = [n for n, _ in module_params(it, m)]
+                    if segs is None or len(segs) != len(names):
+                        ck.undecided("C03.R6", inst, esite, "gradient is not a concatenation of one segment per parameter")
+                        continue
+                    v = T.sym("v")
+                    ph = T.sigmoid(aff(v, R["W"], R["c"]))
+                    exp = {}
+                    if reduce:
+                        exp["W"] = -T.app("matmul", T.app("t", ph), v)
+                        exp["b"] = -T.app("sum", v, (-2,))
+                        exp["c"] = -T.app("sum", ph, (-2,))
                     else:
-                        d = lin_diff(got, w)
-                        ck.check(diff_verdict(d), "C03.R6", "%s:d/d%s" % (inst, n), esite,
-                                 "gradient segment of %s vs the derivative of the effective energy (-sigmoid(pre-activation) x v etc.): %s" % (n, diff_msg(d)), got=got, want=w)
+                        exp["W"] = -T.app("einsum2", "...j,...k->...jk", ph, v)
+                        exp["b"] = -v
+                        exp["c"] = -ph
+                    if "U" in R:
+                        pa = T.sigmoid(aff(v, R["U"], R["d"]))
+                        exp["U"] = -T.app("matmul", T.app("t", pa), v) if reduce else -T.app("einsum2", "...j,...k->...jk", pa, v)
+                        exp["d"] = -T.app("sum", pa, (-2,)) if reduce else -pa
+                    role_of = {n: r for r, (n, _) in params_by_shape(it, m).items()}
+                    for (st, sd), n in zip(segs, names):
+                        r = role_of[n]
+                        got = _strip_flat(st)
+                        w = exp[r]
+                        if got == w:
+                            ck.ok("C03.R6", "%s:d/d%s" % (inst, n), esite, segment=got)
+                        else:
+                            d = lin_diff(got, w)
+                            ck.check(diff_verdict(d), "C03.R6", "%s:d/d%s" % (inst, n), esite,
+                                     "gradient segment of %s vs the derivative of the effective energy (-sigmoid(pre-activation) x v etc.): %s" % (n, diff_msg(d)), got=got, want=w)
     for expand in (True, False):
         for eta in (1, -1):
             inst = "PurificationRBM.gamma_grad/expand=%s/eta=%+d" % (expand, eta)
@@ -137,12 +137,12 @@ def run(ck):
                     v, vp = (tens(it, "v", ("Bv", "nv")), tens(it, "vp", ("Bp", "nv"))) if expand else (tens(it, "v", ("B", "nv")), tens(it, "vp", ("B", "nv")))
                     return m, call(it, m, "gamma_grad", v, vp, eta=VConst(eta), expand=VConst(expand))
 
-                p = single(paths_of(prog, thg), inst)
-                shape_err_verdict(ck, "C03.R2", inst, [p])
-                m, g = p.value
-                lead = (2, "Bv", "Bp") if expand else (2, "B")
-                want = lead + (layout_dim(p.interp, m),)
-                ck.check(g.shape == want, "C03.R2", inst + ":segments in parameter registration order", gsite, "layout %s, expected %s" % (show(g.shape), show(want)))
+                for p in returning(paths_of(prog, thg), inst):
+                    shape_err_verdict(ck, "C03.R2", inst, [p])
+                    m, g = p.value
+                    lead = (2, "Bv", "Bp") if expand else (2, "B")
+                    want = lead + (layout_dim(p.interp, m),)
+                    ck.check(g.shape == want, "C03.R2", inst + ":segments in parameter registration order", gsite, "layout %s, expected %s" % (show(g.shape), show(want)))
     for phase in (False, True):
         for expand in (True, False):
             inst = "DensityMatrix.pi_grad/phase=%s/expand=%s" % (phase, expand)
@@ -153,12 +153,12 @@ def run(ck):
                     v, vp = (tens(it, "v", ("Bv", "nv")), tens(it, "vp", ("Bp", "nv"))) if expand else (tens(it, "v", ("B", "nv")), tens(it, "vp", ("B", "nv")))
                     return s, call(it, s, "pi_grad", v, vp, phase=VConst(phase), expand=VConst(expand))
 
-                p = single(paths_of(prog, thp), inst)
-                shape_err_verdict(ck, "C03.R2", inst, [p])
-                s, g = p.value
-                lead = (2, "Bv", "Bp") if expand else (2, "B")
-                want = lead + (layout_dim(p.interp, p.interp.get_attr(s, "rbm_am", None)),)
-                ck.check(g.shape == want, "C03.R2", inst + ":segments in parameter registration order", psite, "layout %s, expected %s" % (show(g.shape), show(want)))
+                for p in returning(paths_of(prog, thp), inst):
+                    shape_err_verdict(ck, "C03.R2", inst, [p])
+                    s, g = p.value
+                    lead = (2, "Bv", "Bp") if expand else (2, "B")
+                    want = lead + (layout_dim(p.interp, p.interp.get_attr(s, "rbm_am", None)),)
+                    ck.check(g.shape == want, "C03.R2", inst + ":segments in parameter registration order", psite, "layout %s, expected %s" % (show(g.shape), show(want)))
     # num_pars equals the layout size
     for rbm in ("BinaryRBM", "PurificationRBM"):
         with ck.guard("C03.R2", rbm + ".num_pars"):
@@ -166,12 +166,12 @@ def run(ck):
                 m = make_rbm(it, rbm, "rbm")
                 return m, m.inst.attrs.get("num_pars")
 
-            p = single(paths_of(prog, thn), rbm)
-            m, npars = p.value
-            from ..values import dim_size
+            for p in returning(paths_of(prog, thn), rbm):
+                m, npars = p.value
+                from ..values import dim_size
 
-            ck.check(num_term(npars) == dim_size(layout_dim(p.interp, m)), "C03.R2", rbm + ".num_pars = total parameter count", prog.method(rbm, "__init__").site(),
-                     "num_pars is %r; the parameters hold %r values" % (num_term(npars), dim_size(layout_dim(p.interp, m))))
+                ck.check(num_term(npars) == dim_size(layout_dim(p.interp, m)), "C03.R2", rbm + ".num_pars = total parameter count", prog.method(rbm, "__init__").site(),
+                         "num_pars is %r; the parameters hold %r values" % (num_term(npars), dim_size(layout_dim(p.interp, m))))
     # ------------------------------------------------------------------ R3 positive phase = gradient / rows
     for cls in STATES:
         psite = prog.method(cls, "positive_phase_gradients").site()
@@ -184,23 +184,23 @@ def run(ck):
                     args = [S] + ([api.bases_arr(it, "bases", "Bs")] if wb else [])
                     return s, S, call(it, s, "positive_phase_gradients", *args)
 
-                p = single(paths_of(prog, th, stubs={"NeuralStateBase.gradient": stub_gradient}), inst)
-                it = p.interp
-                s, S, r = p.value
-                nets = state_networks(it, s)
-                items = it.concrete_items(r)
-                gc = [c for c in p.calls if c[0] == "NeuralStateBase.gradient"]
-                ck.check(len(gc) == 1 and gc[0][5].get("samples").obj is S.obj, "C03.R3", inst + ":gradient of the same batch", psite, "gradient() is not called once on samples_batch")
-                if gc:
-                    b = gc[0][5].get("bases")
-                    ck.check((isinstance(b, VTens) and b.term == T.sym("bases")) if wb else (isinstance(b, VConst) and b.value is None), "C03.R3", inst + ":bases forwarded", psite, "bases are not forwarded unchanged")
-                ok = items is not None and len(items) == len(nets)
-                ck.check(ok, "C03.R3", inst + ":one vector per network", psite, "result is not one vector per network")
-                if ok:
-                    for n, g in zip(nets, items):
-                        want = T.sym("g_" + n) * T.inv(T.sym("Bs"))
-                        d = lin_diff(g.term, want)
-                        ck.check(diff_verdict(d), "C03.R3", inst + ":%s = gradient / number of samples" % n, psite, "positive phase of %s: %s" % (n, diff_msg(d)), got=g.term)
+                for p in returning(paths_of(prog, th, stubs={"NeuralStateBase.gradient": stub_gradient}), inst):
+                    it = p.interp
+                    s, S, r = p.value
+                    nets = state_networks(it, s)
+                    items = it.concrete_items(r)
+                    gc = [c for c in p.calls if c[0] == "NeuralStateBase.gradient"]
+                    ck.check(len(gc) == 1 and gc[0][5].get("samples").obj is S.obj, "C03.R3", inst + ":gradient of the same batch", psite, "gradient() is not called once on samples_batch")
+                    if gc:
+                        b = gc[0][5].get("bases")
+                        ck.check((isinstance(b, VTens) and b.term == T.sym("bases")) if wb else (isinstance(b, VConst) and b.value is None), "C03.R3", inst + ":bases forwarded", psite, "bases are not forwarded unchanged")
+                    ok = items is not None and len(items) == len(nets)
+                    ck.check(ok, "C03.R3", inst + ":one vector per network", psite, "result is not one vector per network")
+                    if ok:
+                        for n, g in zip(nets, items):
+                            want = T.sym("g_" + n) * T.inv(T.sym("Bs"))
+                            d = lin_diff(g.term, want)
+                            ck.check(diff_verdict(d), "C03.R3", inst + ":%s = gradient / number of samples" % n, psite, "positive phase of %s: %s" % (n, diff_msg(d)), got=g.term)
     # ------------------------------------------------------------------ R4 per-basis grouping
     gsite = prog.method("NeuralStateBase", "gradient").site()
     for cls in ("ComplexWaveFunction", "DensityMatrix"):
@@ -274,34 +274,34 @@ def run(ck):
                 pr = call(it, s, "probability", space)
                 return s, r, G, pr
 
-            p = single(paths_of(prog, th, sticky=True, stubs={"NeuralStateBase.positive_phase_gradients": stub_ppg}), inst)
-            shape_err_verdict(ck, "C03.R5", inst, [p])
-            it = p.interp
-            s, r, G, pr = p.value
-            items = it.concrete_items(r)
-            nets = state_networks(it, s)
-            ck.check(items is not None and len(items) == len(nets), "C03.R5", inst + ":one gradient per network", esite, "result is not one vector per network")
-            if items is None or len(items) != len(nets):
-                continue
-            pt = pr.term
-            Z = T.app("sum", pt, "all")
-            want0 = T.sym("P_rbm_am") - T.app("matmul", T.app("t", G.term), pt * T.inv(Z))
-            got0 = items[0].term
-            if got0 == want0:
-                ck.ok("C03.R5", inst + ":amplitude = positive - <dE/dlambda>_model", esite)
-            else:
-                alt = T.sym("P_rbm_am") + T.app("matmul", T.app("t", G.term), pt * T.inv(Z))
-                un = T.sym("P_rbm_am") - T.app("matmul", T.app("t", G.term), pt)
-                if got0 == alt:
-                    ck.violation("C03.R5", inst + ":amplitude = positive - <dE/dlambda>_model", esite, "the exact negative phase is added instead of subtracted")
-                elif got0 == un:
-                    ck.violation("C03.R5", inst + ":amplitude = positive - <dE/dlambda>_model", esite, "the exact negative phase uses unnormalised probabilities")
-                elif got0 is not None and got0.syms() != want0.syms():
-                    ck.violation("C03.R5", inst + ":amplitude = positive - <dE/dlambda>_model", esite, "the exact gradient depends on %s; expected %s" % (sorted(got0.syms()), sorted(want0.syms())))
+            for p in returning(paths_of(prog, th, sticky=True, stubs={"NeuralStateBase.positive_phase_gradients": stub_ppg}), inst):
+                shape_err_verdict(ck, "C03.R5", inst, [p])
+                it = p.interp
+                s, r, G, pr = p.value
+                items = it.concrete_items(r)
+                nets = state_networks(it, s)
+                ck.check(items is not None and len(items) == len(nets), "C03.R5", inst + ":one gradient per network", esite, "result is not one vector per network")
+                if items is None or len(items) != len(nets):
+                    continue
+                pt = pr.term
+                Z = T.app("sum", pt, "all")
+                want0 = T.sym("P_rbm_am") - T.app("matmul", T.app("t", G.term), pt * T.inv(Z))
+                got0 = items[0].term
+                if got0 == want0:
+                    ck.ok("C03.R5", inst + ":amplitude = positive - <dE/dlambda>_model", esite)
                 else:
-                    ck.undecided("C03.R5", inst + ":amplitude = positive - <dE/dlambda>_model", esite, "exact gradient %r not recognised" % (got0,))
-            if len(items) > 1:
-                ck.check(items[1].term == T.sym("P_rbm_ph"), "C03.R5", inst + ":phase gradient untouched", esite, "the phase gradient is modified by the negative phase: %r" % (items[1].term,))
+                    alt = T.sym("P_rbm_am") + T.app("matmul", T.app("t", G.term), pt * T.inv(Z))
+                    un = T.sym("P_rbm_am") - T.app("matmul", T.app("t", G.term), pt)
+                    if got0 == alt:
+                        ck.violation("C03.R5", inst + ":amplitude = positive - <dE/dlambda>_model", esite, "the exact negative phase is added instead of subtracted")
+                    elif got0 == un:
+                        ck.violation("C03.R5", inst + ":amplitude = positive - <dE/dlambda>_model", esite, "the exact negative phase uses unnormalised probabilities")
+                    elif got0 is not None and got0.syms() != want0.syms():
+                        ck.violation("C03.R5", inst + ":amplitude = positive - <dE/dlambda>_model", esite, "the exact gradient depends on %s; expected %s" % (sorted(got0.syms()), sorted(want0.syms())))
+                    else:
+                        ck.undecided("C03.R5", inst + ":amplitude = positive - <dE/dlambda>_model", esite, "exact gradient %r not recognised" % (got0,))
+                if len(items) > 1:
+                    ck.check(items[1].term == T.sym("P_rbm_ph"), "C03.R5", inst + ":phase gradient untouched", esite, "the phase gradient is modified by the negative phase: %r" % (items[1].term,))
     ck.require_min("C03.R1", 40)
     ck.require_min("C03.R2", 30)
     ck.require_min("C03.R3", 15)
